@@ -49,6 +49,9 @@ def render(toks, rng, plain=False, kinds=("key",)):
             if ind is not None and not plain:
                 c = rng.choice(["", " ", "  ", "\t"]) + c
             s += c
+        elif ind is not None and not plain and n < len(cs) - 1:
+            # a bare indicator that is NOT the last part (never well-formed): with and without white space behind it
+            s += rng.choice(["", " ", "  ", "\t", " \n "])
         info.append((ind, cond, leaves))
     return s, info
 
